@@ -2,7 +2,7 @@ import NixModel.Lemmas.C12Agree
 import NixModel.Lemmas.C12Ops
 import NixModel.Lemmas.StoreWF
 import NixModel.Lemmas.C12Avail
-import NixModel.Lemmas.C12MultiTag
+import NixModel.Lemmas.C12MultiTagFull
 
 /-!
 # C12 — a refused operation leaves the file exactly as it was
@@ -185,20 +185,20 @@ The writer `createMultiTagW` follows `Block.create_multi_tag`: auto-created arra
 `<name>-positions` / `<name>-extents`, and the `except` clause that deletes the half-built tag and
 then those arrays through `delete_all([id])`. -/
 
-/-- the full statement for this operation -/
-def MultiTagRefusedUnchanged : Prop :=
-  ∀ (g : Graph), WF g → ∀ (p : Path) (n t : String) (pos ext : ArrArg) (e : Err),
-    (createMultiTagW g p n t pos ext).2 = some e → Unch g (createMultiTagW g p n t pos ext).1
-
-/-- proved: refused ⇒ unchanged whenever no *successfully* auto-created array has to be deleted again
-(positions / extents are existing objects of any kind or block, None, or data of an invalid class).
-Missing for `MultiTagRefusedUnchanged`: that `delete_all([id])` of an auto-created array removes
-exactly the link just made — it needs `WF.ids_wf` (no other node carries the id just drawn) carried
-through the intermediate graphs. The correspondence exercises that path (`mtag:ok/…` injections). -/
-theorem multi_tag_refused_unchanged_partial {g : Graph} (hT : Tidy g) (p : Path) (n t : String)
-    (pos ext : ArrArg) (hA : NoAutoArray pos ext) (e : Err)
+/-- **`create_multi_tag`, full statement**: positions / extents given as existing objects (of any kind,
+of any block), as valid data, as data of an invalid class, or not at all — if the call is refused, the
+half-built tag and every auto-created array are gone again and the file is as it was. (`hnP`, `hnE`:
+the names of the auto-created arrays are not ids of the supply — uuid4 freshness.) -/
+theorem multi_tag_refused_unchanged {g : Graph} (hWF : WF g) (p : Path) (n t : String) (pos ext : ArrArg)
+    (hnP : ∀ m, n ++ "-positions" ≠ idStr m) (hnE : ∀ m, n ++ "-extents" ≠ idStr m) (e : Err)
     (h : (createMultiTagW g p n t pos ext).2 = some e) : Unch g (createMultiTagW g p n t pos ext).1 :=
-  createMultiTagW_unch_partial hT p n t pos ext hA e h
+  createMultiTagW_unch hWF p n t pos ext hnP hnE e h
+
+/-- deleting an auto-created array again through `delete_all([id])` undoes its creation, whatever
+unobservable happened in between -/
+theorem auto_array_life_cycle {g g1 : Graph} (hWF : WF g) {p : Path} {nm ty : String} {K : Nat}
+    (h : autoArray g p nm ty none = (g1, .ok K)) (hh : Graph) (hu : Unch g1 hh) :
+    Unch g (dropAuto hh (some K)) := auto_lifecycle hWF h hh hu
 
 /-- the inner `create_data_array` of `create_multi_tag` refuses without a trace -/
 theorem auto_array_refused_unchanged {g : Graph} (hT : Tidy g) (p : Path) (n t : String) (f : Option Fault)
@@ -207,8 +207,8 @@ theorem auto_array_refused_unchanged {g : Graph} (hT : Tidy g) (p : Path) (n t :
 
 def demo : Graph := run init [.createBlock "b" "t", .createIn [.name "data", .name "b"] "data_array" "a" "t" none]
 
-/-- a concrete instance of the part without theorem: valid positions data, extents of an invalid
-class — the auto-created `m-positions` is gone again from the block's `data_arrays` -/
+/-- non-vacuity: valid positions data, extents of an invalid class — refused, and the auto-created
+`m-positions` is gone again from the block's `data_arrays` -/
 def demoMT : Reached :=
   createMultiTagW demo [.name "data", .name "b"] "m" "t" (.data none) (.data (some ⟨.entity, .typeError⟩))
 
